@@ -6,7 +6,9 @@
 //   - real loops: a proxy chained to itself and two instances A -> B -> A with the same configured
 //     name, each hop passing through a counting pass-through peer that also records what it relays;
 //   - fleets (fleet.go): the same topologies over http / https / socks5 upstream links and plain / TLS
-//     listeners, with the instances built from configuration values in every way a program can obtain them.
+//     listeners, with the instances built from configuration values in every way a program can obtain them;
+//   - first requests (first.go): bursts of the very first requests of FRESH instances (child process);
+//   - CONNECT cross-talk (cross.go): concurrent CONNECTs with chains of their own through one instance / a loop.
 //
 // Observed: client status (+ X-Forwarder-Error), the Via field lines at the next hop, contact
 // counters of every origin / upstream peer, number of hops a loop makes.
@@ -1364,6 +1366,10 @@ type pools struct {
 	loops map[string]*loopEnv
 	// fleets are created outside the pool lock (each start-up probes its instances): one slot per key
 	fleets map[string]*fleetSlot
+	// the two-instance CONNECT loop of the cross-talk cases
+	connLoopOnce sync.Once
+	connLoop     *connLoopEnv
+	connLoopErr  error
 }
 
 type fleetSlot struct {
@@ -1429,6 +1435,9 @@ func (p *pools) closeAll() {
 			sl.env.close()
 		}
 	}
+	if p.connLoop != nil {
+		p.connLoop.close()
+	}
 }
 
 func (p *pools) run(ctx *core.Ctx, raw json.RawMessage) {
@@ -1476,6 +1485,40 @@ func (p *pools) run(ctx *core.Ctx, raw json.RawMessage) {
 			return
 		}
 		e.runFleet(ctx, &fc)
+	case "cconn":
+		var cc connCrossCase
+		if err := json.Unmarshal(raw, &cc); err != nil || cc.Clients < 1 || cc.Clients > 64 || cc.PerClient < 1 || cc.PerClient > 16 {
+			core.Fatalf("bad C18 CONNECT cross-talk case: %v", err)
+		}
+		cc.Victim, cc.Other = nil, nil
+		if cc.Mode == "loop" {
+			p.connLoopOnce.Do(func() { p.connLoop, p.connLoopErr = newConnLoopEnv() })
+			if p.connLoopErr != nil {
+				if errors.Is(p.connLoopErr, errChainLost) {
+					ctx.SpecFail(clauseHop, "", cc, p.connLoopErr.Error(), "")
+				} else {
+					ctx.Crash("proxy starts with a valid configuration and forwards a CONNECT without Via", "", cc, p.connLoopErr.Error())
+				}
+				return
+			}
+			p.connLoop.runConnLoop(ctx, &cc)
+			return
+		}
+		e, err := p.env(cc.Mode)
+		if err != nil {
+			ctx.Crash("proxy starts with a valid configuration", "", cc, err.Error())
+			return
+		}
+		if e.up == nil || (e.upKind != "http" && e.upKind != "https") {
+			core.Fatalf("bad C18 CONNECT cross-talk case: mode %q has no HTTP(S) upstream proxy", cc.Mode)
+		}
+		e.runConnCross(ctx, &cc)
+	case "first":
+		var fc firstCase
+		if err := json.Unmarshal(raw, &fc); err != nil {
+			core.Fatalf("bad C18 first-requests case: %v", err)
+		}
+		runFirst(ctx, &fc)
 	case "tag":
 		// the tag-shape clause is evaluated whenever an environment starts
 		var w struct {
@@ -1503,6 +1546,7 @@ func (p *pools) run(ctx *core.Ctx, raw json.RawMessage) {
 func Replay(ctx *core.Ctx, raw json.RawMessage) {
 	p := newPools(ctx)
 	defer p.closeAll()
+	defer stopFirstChild()
 	p.run(ctx, raw)
 }
 
